@@ -23,6 +23,7 @@
   and the returned ratio (floating point).
 -/
 import PS.Proofs.Splitter
+import PS.Proofs.SplitterFrag7
 namespace PS.Sp
 open PS PS.G
 
@@ -155,6 +156,56 @@ theorem finding_C08_F1_old_split_step_loses_a_node :
       = some (false, 3) ∧
     (trySplit exG [([exNodeF, exNodeC], 1)] 0).map (fun pgs => (coverUpTo exG.g 5 (flat pgs), (flat pgs).length))
       = some (true, 3) := by
+  decide +kernel
+
+/-! ### the fragment grammar of a group (`__pcfg_from__`) -/
+
+/-- **language of a fragment.**  `pcfgFrom` is the model of `__pcfg_from__`; its non-terminals are
+    copies `(type, (u, k))` of the original `(type, u)`, `er` forgets the number `k` and `erStep`
+    does so in a derivation step.  For every grammar, every group of valid, pairwise
+    prefix-incomparable nodes (`PrefixFree`: what a part of a cover is) and every fuel with which the
+    refilling loop `while to_fill` ran to completion (`fillDone`, see `C08_fragment_fuel`):
+    the erasure is a bijection between the derivations of the fragment and the derivations of the
+    original grammar that lie in the cell of a node of the group —
+    (1) every derivation of the fragment erases to a derivation of the original grammar in the cell
+        of some node of the group,
+    (2) every derivation in the cell of a node of the group is the erasure of a derivation of the
+        fragment,
+    (3) two derivations of the fragment with the same erasure are equal (the fragment is
+        unambiguous, given that its derivations are read as programs through the original ones). -/
+theorem C08_fragment_lang (pg : PUG U) (group : List (Node U)) (hv : ∀ n ∈ group, Valid pg.g n)
+    (hpf : PrefixFree group) (fuel : Nat) (frag : PUG (U × Nat))
+    (h : pcfgFrom pg group fuel = some frag) (hfuel : fillDone pg group fuel = true) :
+    (∀ X w', Deriv frag.g X w' →
+      Deriv pg.g (er X) (w'.map erStep) ∧ ∃ n ∈ group, Matches n (er X) (w'.map erStep)) ∧
+    (∀ n ∈ group, ∀ s w, Deriv pg.g s w → Matches n s w →
+      ∃ X w', Deriv frag.g X w' ∧ er X = s ∧ w'.map erStep = w) ∧
+    (∀ X1 w1 X2 w2, Deriv frag.g X1 w1 → Deriv frag.g X2 w2 → er X1 = er X2 →
+      w1.map erStep = w2.map erStep → X1 = X2 ∧ w1 = w2) := by
+  obtain ⟨st, hst, rfl, htf⟩ := pcfgFrom_some h hfuel
+  obtain ⟨L, stG, hf, _⟩ := facts_of_pcfgFrom hpf hst htf
+  refine ⟨?_, ?_, ?_⟩
+  · intro X w' hd
+    obtain ⟨n, hn, hm, hd'⟩ := frag_sound hf hv hd
+    exact ⟨hd', n, hn, hm⟩
+  · intro n hn s w hd hm
+    exact frag_complete hf hv hpf hn hd hm
+  · intro X1 w1 X2 w2 h1 h2 hX hw
+    exact frag_inj hf hpf h1 h2 hX hw
+
+/-- the nodes `f a ·` and `f b ·` of the example: same start symbol, same first rule, then they diverge -/
+def exNodeFa : Node Nat := ⟨3/8, [], exA, [sF, sA], [exS, exA], [[exA, exA], []]⟩
+def exNodeFb : Node Nat := ⟨3/8, [], exA, [sF, sB], [exS, exA], [[exA, exA], []]⟩
+
+example : (∀ n ∈ [exNodeFa, exNodeFb], Valid exG.g n) ∧ PrefixFree [exNodeFa, exNodeFb] ∧
+    (pcfgFrom exG [exNodeFa, exNodeFb] 10).isSome = true ∧ fillDone exG [exNodeFa, exNodeFb] 10 = true := by
+  refine ⟨?_, ?_, by decide +kernel, by decide +kernel⟩
+  · intro n hn
+    simp only [List.mem_cons, List.not_mem_nil, or_false] at hn
+    rcases hn with rfl | rfl <;> (unfold Valid; decide +kernel)
+  · unfold PrefixFree; decide +kernel
+/-- the fragment of `[f a ·, f b ·]` has the 4 derivations `f a a, f a b, f b a, f b b` -/
+example : ((pcfgFrom exG [exNodeFa, exNodeFb] 10).map (fun fr => (derivations fr.g 6).length)) = some 4 := by
   decide +kernel
 
 end PS.Sp
